@@ -54,8 +54,13 @@ def plan(seed, subbatch):
     start = world.pick_start(cfg, base_s)
     pre, ops, fired, rows = planlib.stream_and_schedule(seed, subbatch, n, base_s, start, {}, burst, 0.0,
                                                         regimes=regimes, regime_len=(2, 15))
+    tf = None
+    if cfg.random() < 0.3:
+        # the whole Hexital on a collapsing timeframe: the newest bucket is merged into between evaluations
+        tf = world.pick_timeframe(cfg, base_s, 2.0, 4.0, allow_finer=False)
     return {"format": 1, "property": ID, "seed": seed, "subbatch": subbatch,
-            "config": {"fn": fn, "args": args, "base_s": base_s, "amorph_form": cfg.choice(("object", "dict"))},
+            "config": {"fn": fn, "args": args, "base_s": base_s, "amorph_form": cfg.choice(("object", "dict")),
+                       "tf": tf},
             "ops": [{"op": "new", "preload": pre}] + ops + [{"op": "check"}], "fired": dict(fired)}
 
 
@@ -109,7 +114,7 @@ def execute(trace, ctx=None):
                 rows = op.get("preload") or []
                 delivered.extend(rows)
                 try:
-                    hx = run.call(len(rows), Hexital, "sim", mk_candles(rows), _members(cfg))
+                    hx = run.call(len(rows), Hexital, "sim", mk_candles(rows), _members(cfg), timeframe=cfg.get("tf"))
                     run.call(len(rows) * 4, hx.calculate)
                 except LibError as e:
                     wrapper_failure(e, kind)
@@ -132,7 +137,13 @@ def execute(trace, ctx=None):
                 continue
             # observation 1: candle n-1 is the newest candle right now
             t = n - 1
-            if t not in ledger:
+            if cfg.get("tf"):
+                # the newest bucket is still forming: its answer may legitimately change until it closes;
+                # the closed candle before it is final
+                t = n - 2
+            if t >= 0 and cfg.get("tf") and t not in ledger:
+                ledger[t] = call(candles[: t + 1])
+            elif t not in ledger:
                 v_def = call(candles)
                 v_neg = call(candles, index=-1)
                 v_pos = call(candles, index=t)
@@ -174,7 +185,7 @@ def execute(trace, ctx=None):
                     raise Violation("amorph-live", fn_name, "early" if j < 10 else "later",
                                     {"i": j, "live": live[j], "direct": want[j], "n": n, "args": args})
                 try:
-                    bt = Hexital("twin", mk_candles(delivered), _members(cfg))
+                    bt = Hexital("twin", mk_candles(delivered), _members(cfg), timeframe=cfg.get("tf"))
                     bt.calculate()
                     batch = bt.indicator(name).as_list()
                 except Exception as exc:  # noqa: BLE001
